@@ -3,7 +3,7 @@
 # (compiles, 48/48 tests, demo passes on the pristine tree and fails with the change), then store it
 # as /verif/seeded/<PROP>-<k>/ {patch.diff, demo files, notes.md, meta.json}.
 set -u
-P=$1; K=$2
+P=$1; K=$2; S=${3:-$2}   # S = index under which the change is stored (round 2: out/1 -> seeded/<P>-5 ...)
 W=${SEED_WT:-/tmp/seed/$P}
 V=$(cd "$(dirname "$0")/.." && pwd)
 O=$W/out/$K
@@ -26,11 +26,11 @@ ok=no
 if echo "$T0" | grep -q "100% tests passed" && echo "$T1" | grep -q "100% tests passed" && [ "$D0" = 0 ] && [ "$D1" != 0 ]; then ok=yes; fi
 echo "VERIFIED=$ok"
 if [ $ok = yes ]; then
-  D=$V/seeded/$P-$K
+  D=$V/seeded/$P-$S
   mkdir -p "$D"
   cp "$O/patch.diff" "$D/patch.diff"
   for f in "$O"/*; do case "$(basename $f)" in patch.diff|.demo.log) ;; *) cp -r "$f" "$D/";; esac; done
-  python3 - "$D" "$P" "$K" "$T0" "$T1" "$D0" "$D1" <<'PY'
+  python3 - "$D" "$P" "$S" "$T0" "$T1" "$D0" "$D1" <<'PY'
 import json, sys, os, subprocess
 d, p, k, t0, t1, d0, d1 = sys.argv[1:8]
 notes = open(os.path.join(d, "notes.md")).read() if os.path.exists(os.path.join(d, "notes.md")) else ""
